@@ -449,6 +449,8 @@ class FcpV2Transformer(Transformer):
                 self.error_logger.log_lark(filename.name, e),
                 Token(MetaData(line, line, column, column, 0, 0, str(filename))),
             )
+        except RecursionError:
+            return error(f"{filename.name} is nested too deeply")
 
         try:
             fcp = FcpV2Transformer(
@@ -461,6 +463,8 @@ class FcpV2Transformer(Transformer):
             fcp = _visit_error(e, filename).map_err(
                 lambda err: err.results_in(f"Failed to parse {filename.name}")
             )
+        except RecursionError:
+            return error(f"{filename.name} is nested too deeply")
 
         self.fcp.merge(
             fcp.map_err(
@@ -601,6 +605,8 @@ def _get_fcp(
             logger.log_lark(filename.name, e),
             Token(MetaData(line, line, column, column, 0, 0, str(filename))),
         )
+    except RecursionError:
+        return error(f"{filename.name} is nested too deeply")
 
     parser_context = ParserContext()
 
@@ -612,6 +618,8 @@ def _get_fcp(
         return _visit_error(e, filename).map_err(
             lambda err: err.results_in(f"Failed to parse {filename.name}")
         )
+    except RecursionError:
+        return error(f"{filename.name} is nested too deeply")
 
     return Ok(fcp.attempt())
 
